@@ -187,7 +187,7 @@ func e2eOne(c *Ctx, prop string, idx int, seed int64, sp *e2eSpec, dir string) {
 	defer o.w.close()
 	v := func(p, clause, fp, detail string) {
 		if p != prop {
-			if !accepts[prop][p] {
+			if !accepts[prop][p] || (sp.OwnOraclesOnly && p != "C03") {
 				res.Count("other_property_violations_seen_"+p, 1)
 				return
 			}
@@ -282,7 +282,7 @@ func runCrashEnum(c *Ctx, prop string) {
 	nScen := c.N(6, 40)
 	nShapes := 6
 	if prop == "C07" {
-		nScen, nShapes = c.N(7, 42), 7
+		nScen, nShapes = c.N(8, 48), 8
 	}
 	capK := c.N(170, 100000)
 	idx := 0
@@ -296,6 +296,22 @@ func runCrashEnum(c *Ctx, prop string) {
 		sp0.Conf.Tags[0].DeleteDelay = 0
 		// scenario shapes: single small file; multi-part; chain in one payload; renamed; deletion
 		switch sidx % nShapes {
+		case 7:
+			// a file that is already cached gets new content while the sender runs: the
+			// scan that picks it up finds no new names; the new version is partly sent
+			// at many crash points (what the restarted sender believes comes from the
+			// cache file the previous instance wrote)
+			sp0.Files = nil
+			for k := 0; k < 3; k++ {
+				sp0.Files = append(sp0.Files, wsFile{Name: fmt.Sprintf("a.%03d.dat", k), Size: 2*sp0.Conf.PayloadSize + int64(50+srng.Intn(400))})
+			}
+			sp0.Mutations = []mutation{{AtAction: 6 + srng.Intn(25), File: srng.Intn(3), Kind: []string{"append", "rewrite", "replace"}[srng.Intn(3)]}}
+			sp0.Conf.ScanDelay = time.Duration(3+srng.Intn(8)) * time.Second
+			sp0.Conf.Tags[0].Delete = false
+			// two versions of a name are in play here: what the release / ledger oracles
+			// of C02 and C08 say about that belongs to those checks (and their known
+			// findings), not to the crash enumeration
+			sp0.OwnOraclesOnly = true
 		case 6:
 			// stale cache at restart: one file over several payloads (partly received
 			// at most crash points) and a dozen small ones that disappear from the
